@@ -18,3 +18,13 @@ CHECKS["C13"] = dict(
                  "GoSE interprets go/ssa faithfully (validated by native replay of counterexamples and differential self-tests)"],
     outside=["numbers longer than the stated digit bound", "headers longer than the stated byte bound", "HTTP framing of the response body"],
 )
+
+CHECKS["C14"] = dict(
+    explanation="Resources.Match executed symbolically on arbitrary pattern/subject bytes against a textbook glob matcher expressed as one formula.",
+    harnesses=[
+        dict(name="H14a-glob", pkgs=["./auth"], entry="auth.VfGlobMatch", native=True, reach=["matched", "not-matched"]),
+        dict(name="H14a-witness", pkgs=["./auth"], entry="auth.VfGlobWitness", witness=True),
+    ],
+    assumptions=["SMT solvers sound", "GoSE faithful to go/ssa semantics"],
+    outside=["patterns/subjects longer than the stated bounds"],
+)
